@@ -252,7 +252,8 @@ func runLint(runner *Runner, rslv resolver.Resolver) error {
 	write(yellow, ":exclamation:%d warnings, ", result.Warnings)
 	writeln(cyan, ":speaker:%d recommendations.", result.Infos)
 
-	if result.Errors > 0 {
+	// On JSON mode parse errors are reported in the document instead of an error of the runner
+	if result.Errors > 0 || len(result.ParseErrors) > 0 {
 		return ErrExit
 	}
 
